@@ -215,8 +215,13 @@ def sampling_plan(draw, scn):
     """distinct sample numbers for every card and a per-contest sample size 1..#cards listing the contest."""
     n = len(scn["cards"])
     nums = draw(st.permutations(list(range(1, n + 1))))
-    scale = draw(st.sampled_from([1, 1, 7, 10 ** 6, 2 ** 61]))
-    nums = [int(v) * scale + draw(st.integers(0, scale - 1)) if scale > 1 else int(v) for v in nums]
+    scale = draw(st.sampled_from([1, 1, 7, 10 ** 6, 2 ** 61, "close", "close"]))
+    if scale == "close":
+        # 65..256-bit numbers that differ only in their low bits (sample numbers are 256-bit integers in practice)
+        base = draw(st.sampled_from([2 ** 64, 2 ** 200, 2 ** 255 + 2 ** 254, 10 ** 30]))
+        nums = [base + int(v) for v in nums]
+    else:
+        nums = [int(v) * scale + draw(st.integers(0, scale - 1)) if scale > 1 else int(v) for v in nums]
     sizes = {}
     return {"sample_nums": nums, "size_fracs": {cid: draw(st.floats(0.0, 1.0)) for cid in scn["contests"]}}
 
